@@ -24,7 +24,7 @@ CONSTANT MaxFields
 
 FieldOpts == {[dflt |-> "none", repr |-> r, same |-> FALSE] : r \in BOOLEAN}
              \cup {[dflt |-> d, repr |-> r, same |-> s] : d \in {"value", "factory"}, r \in BOOLEAN, s \in BOOLEAN}
-Name(i) == CASE i = 1 -> "f1" [] i = 2 -> "f2" [] i = 3 -> "f3" [] OTHER -> "f4"
+Name(i) == CASE i = 1 -> "f1" [] i = 2 -> "f2" [] i = 3 -> "f3" [] OTHER -> "f4"   \* declaration order
 
 Defs == UNION {[1..n -> FieldOpts] : n \in 0..MaxFields}
 
